@@ -308,6 +308,24 @@ fn gen_constructor(s: &mut Session, rng: &mut Rng, size_cap: u32) {
         }
         return;
     }
+    if rng.chance(1, 16) {
+        // hidden emptiness: a semantically (not syntactically) empty term buried under concat /
+        // zero-able loop / concat — the structural shortcuts of start_char, is_empty, derivatives
+        let b = s.cons("re char 98".into(), 1, |m| m.char(98));
+        let c = s.cons("re char 99".into(), 1, |m| m.char(99));
+        if let (Some(b), Some(c)) = (b, c) {
+            if let Some(em) = s.cons(format!("re inter {} {}", Session::id(b), Session::id(c)), 3, |m| m.inter(b, c)) {
+                let iem = Session::id(em);
+                if let Some(yy) = s.cons(format!("re concat {} {}", ix, iem), sx + 4, |m| m.concat(x, em)) {
+                    let r = *rng.pick(&[LoopRange::star(), LoopRange::opt(), LoopRange::finite(0, 2), LoopRange::plus()]);
+                    if let Some(z) = s.cons(format!("re mk_loop {} {}", Session::id(yy), lr_str(&r)), sx + 5, |m| m.mk_loop(yy, r)) {
+                        s.cons(format!("re concat {} {}", Session::id(z), iy), sx + sy + 6, |m| m.concat(z, y));
+                    }
+                }
+            }
+        }
+        return;
+    }
     if rng.chance(1, 14) {
         // wildcard prefixes/suffixes: (bounded or unbounded) loops of Σ concatenated with a term
         if let Some(sg) = s.cons("re all_chars".into(), 1, |m| m.all_chars()) {
@@ -815,6 +833,87 @@ fn long_literal_session(t: &mut Trace, rng: &mut Rng) {
     s.finish();
 }
 
+/// loops with counters near u32::MAX (string lengths reaching 2^32 and nested products reaching
+/// 2^64), bounds near usize::MAX, and very long subject strings: only operations that do not
+/// enumerate the (astronomically large) closure are used
+fn huge_session(t: &mut Trace, rng: &mut Rng, thorough: bool) {
+    let mut s = Session::new(t, vec![97, 98, 99], 2);
+    let id = Session::id;
+    let a = s.cons("re char 97".into(), 1, |m| m.char(97)).unwrap();
+    let b = s.cons("re char 98".into(), 1, |m| m.char(98)).unwrap();
+    let c = s.cons("re char 99".into(), 1, |m| m.char(99)).unwrap();
+    let um = u32::MAX;
+    let big = *rng.pick(&[um, um - 1, 1u32 << 31, 65536]);
+    let mut terms: Vec<RegLan> = Vec::new();
+    if let Some(l) = s.cons(format!("re smt_loop {} 0 {}", id(a), big), 3, |m| m.smt_loop(a, 0, big)) {
+        if let Some(e) = s.cons(format!("re concat {} {}", id(l), id(b)), 5, |m| m.concat(l, b)) {
+            terms.push(e);
+        }
+    }
+    if let Some(p) = s.cons(format!("re exp {} {}", id(a), big), 3, |m| m.exp(a, big)) {
+        if let Some(e1) = s.cons(format!("re concat {} {}", id(p), id(b)), 5, |m| m.concat(p, b)) {
+            terms.push(e1);
+            if let Some(p1) = s.cons(format!("re exp {} 65536", id(e1)), 7, |m| m.exp(e1, 65536)) {
+                if let Some(e2) = s.cons(format!("re union {} {}", id(p1), id(c)), 9, |m| m.union(p1, c)) {
+                    if let Some(e3) = s.cons(format!("re exp {} 65536", id(e2)), 11, |m| m.exp(e2, 65536)) {
+                        terms.push(e3);
+                    }
+                }
+            }
+        }
+    }
+    let dg = s.cons("re range 48 57".into(), 1, |m| m.range(48, 57)).unwrap();
+    if let Some(l) = s.cons(format!("re smt_loop {} 1 {}", id(dg), um - 1), 3, |m| m.smt_loop(dg, 1, um - 1)) {
+        let ab = s.cons("re str [97,98]".into(), 3, |m| m.str(&SmtString::from("ab"))).unwrap();
+        if let Some(e) = s.cons(format!("re concat {} {}", id(l), id(ab)), 6, |m| m.concat(l, ab)) {
+            terms.push(e);
+        }
+    }
+    let small = s.cons("re str [97,99]".into(), 3, |m| m.str(&SmtString::from("ac"))).unwrap();
+    let sp = s.cons(format!("re plus {}", id(small)), 4, |m| m.plus(small)).unwrap();
+    for &e in &terms {
+        let ie = id(e);
+        s.rec(format!("re nullable {}", ie), p_bool(e.nullable), true);
+        for w in [vec![99u32], vec![97, 98], vec![97, 97, 98], vec![]] {
+            let r = guarded_m(&mut s.m, |m| id(m.str_derivative(e, &SmtString::from(&w[..]))));
+            s.rec(format!("re str_deriv {} {}", ie, p_nats(&w)), r, true);
+            let r = guarded_m(&mut s.m, |m| p_bool(m.str_in_re(&SmtString::from(&w[..]), e)));
+            s.rec(format!("re str_in_re {} {}", ie, p_nats(&w)), r, true);
+        }
+        for ch in [97u32, 98, 99, 48] {
+            let r = guarded_m(&mut s.m, |m| id(m.char_derivative(e, ch)));
+            s.rec(format!("re char_deriv {} {}", ie, ch), r, true);
+        }
+        for n in [0usize, 1, 5] {
+            let r = guarded_m(&mut s.m, |m| match m.try_compile(e, n) {
+                None => "none".into(),
+                Some(a) => format!("some:{}", a.num_states()),
+            });
+            s.rec(format!("re try_compile_size {} {}", ie, n), r, true);
+        }
+    }
+    // bounds near usize::MAX on a small expression
+    for n in [usize::MAX - 1, usize::MAX / 2, 1usize << 62, 1usize << 61, usize::MAX] {
+        let r = guarded_m(&mut s.m, |m| match m.try_compile(sp, n) {
+            None => "none".into(),
+            Some(a) => format!("some:{}", a.num_states()),
+        });
+        s.rec(format!("re try_compile_size {} {}", id(sp), n), r, true);
+    }
+    // a very long subject string (recursion depth / quadratic behaviour)
+    let n = if thorough { 200_000 } else { 60_000 };
+    let az = s.cons("re range 97 122".into(), 1, |m| m.range(97, 122)).unwrap();
+    let azp = s.cons(format!("re plus {}", id(az)), 2, |m| m.plus(az)).unwrap();
+    let step = s.cons(format!("re concat {} {}", id(azp), id(dg)), 4, |m| m.concat(azp, dg)).unwrap();
+    let e = s.cons(format!("re star {}", id(step)), 5, |m| m.star(step)).unwrap();
+    let w: Vec<u32> = (0..n).map(|i| if i % 7 == 6 { 55 } else { 113 }).collect();
+    let r = guarded_m(&mut s.m, |m| p_bool(m.str_in_re(&SmtString::from(&w[..]), e)));
+    s.rec(format!("re str_in_re {} {}", id(e), p_nats(&w)), r, true);
+    let r = guarded_m(&mut s.m, |m| id(m.str_derivative(e, &SmtString::from(&w[..]))));
+    s.rec(format!("re str_deriv {} {}", id(e), p_nats(&w)), r, true);
+    s.finish();
+}
+
 /// wide n-ary unions / intersections (9..24 operands with pairwise different class boundaries)
 fn wide_session(t: &mut Trace, rng: &mut Rng, maxlen: usize) {
     let k = rng.range(9, 24) as usize;
@@ -940,14 +1039,17 @@ fn inclusion_session(t: &mut Trace, rng: &mut Rng, maxlen: usize) {
 /// through deriv_class, class/char/set derivatives and compilation
 fn aligned_session(t: &mut Trace, rng: &mut Rng, maxlen: usize) {
     let k = rng.below(3) as u32; // head covers [0,k]
-    let m = k + 1 + rng.below(3) as u32; // first alternative [k+1,m]
+    // first alternative [lo1,m]: normally starts right after the head; one time in three it starts
+    // at 0 as well (its classes then overlap the head's and tile on from there)
+    let lo1 = if rng.chance(1, 3) { 0 } else { k + 1 };
+    let m = k + 1 + rng.below(3) as u32; // first alternative [lo1,m]
     let n = m + 1 + rng.below(4) as u32; // second alternative [m+1,n]
     let top = rng.chance(1, 3); // second alternative reaches MAX_CHAR
     let hi = if top { MAX_CHAR } else { n };
     let chars = vec![0u32, k + 1, m + 1, hi.min(n + 1)];
     let mut s = Session::new(t, chars, maxlen);
     let r0 = s.cons(format!("re range 0 {}", k), 1, |mm| mm.range(0, k)).unwrap();
-    let r1 = s.cons(format!("re range {} {}", k + 1, m), 1, |mm| mm.range(k + 1, m)).unwrap();
+    let r1 = s.cons(format!("re range {} {}", lo1, m), 1, |mm| mm.range(lo1, m)).unwrap();
     let r2 = s.cons(format!("re range {} {}", m + 1, hi), 1, |mm| mm.range(m + 1, hi)).unwrap();
     let x = s.cons("re char 120".into(), 1, |mm| mm.char(120)).unwrap();
     let y = s.cons("re char 121".into(), 1, |mm| mm.char(121)).unwrap();
@@ -966,6 +1068,11 @@ fn aligned_session(t: &mut Trace, rng: &mut Rng, maxlen: usize) {
             s.cons(format!("re inter {} {}", id(a1), id(c2)), 8, |mm| mm.inter(a1, c2)).unwrap()
         }
         _ => s.cons(format!("re union_list [{},{},{}]", id(a1), id(a2), id(x)), 8, |mm| mm.union_list([a1, a2, x])).unwrap(),
+    };
+    let alt = if rng.chance(1, 3) {
+        s.cons(format!("re union {} {}", id(r1), id(r2)), 3, |mm| mm.union(r1, r2)).unwrap()
+    } else {
+        alt
     };
     let e = s.cons(format!("re concat {} {}", id(head), id(alt)), 10, |mm| mm.concat(head, alt)).unwrap();
     let e2 = s.cons(format!("re union {} {}", id(e), id(alt)), 12, |mm| mm.union(e, alt)).unwrap();
@@ -996,6 +1103,39 @@ fn random_session(t: &mut Trace, rng: &mut Rng, n_cons: usize, size_cap: u32, ma
     for (k, (e, sz)) in pool.iter().enumerate() {
         if k % 2 == 0 || *sz <= 8 {
             observe(&mut s, rng, e, *sz, k % 3 != 1);
+        }
+    }
+    // history: ask derivative / membership / start questions again after everything else has run
+    // (operands of unions after start_class on the union, derivatives after closures, ...)
+    for _ in 0..std::cmp::min(24, pool.len()) {
+        let (e, _) = pool[rng.below(pool.len() as u64) as usize];
+        let ie = Session::id(e);
+        let cps = cut_points(e);
+        let c = cps[rng.below(cps.len() as u64) as usize];
+        let r = guarded_m(&mut s.m, |m| Session::id(m.char_derivative(e, c)));
+        s.rec(format!("re char_deriv {} {}", ie, c), r, true);
+        let w = rand_string(rng, &s.chars.clone(), 4);
+        let r = guarded_m(&mut s.m, |m| p_bool(m.str_in_re(&SmtString::from(&w[..]), e)));
+        s.rec(format!("re str_in_re {} {}", ie, p_nats(&w)), r, true);
+        if let BaseRegLan::Union(ops) = e.verif_expr() {
+            // the operands of a union, after start_class on the union
+            let cids: Vec<ClassId> = e.class_ids().collect();
+            for &cid in cids.iter().take(2) {
+                let r = guarded_m(&mut s.m, |m| match m.start_class(e, cid) {
+                    Ok(b) => p_bool(b),
+                    Err(x) => p_err(x),
+                });
+                s.rec(format!("re start_class {} {}", ie, p_cid(cid)), r, true);
+            }
+            for &o in ops.iter().take(3) {
+                for &c2 in cut_points(o).iter().take(3) {
+                    let r = guarded_m(&mut s.m, |m| Session::id(m.char_derivative(o, c2)));
+                    s.rec(format!("re char_deriv {} {}", Session::id(o), c2), r, true);
+                }
+                let w = rand_string(rng, &s.chars.clone(), 3);
+                let r = guarded_m(&mut s.m, |m| p_bool(m.str_in_re(&SmtString::from(&w[..]), o)));
+                s.rec(format!("re str_in_re {} {}", Session::id(o), p_nats(&w)), r, true);
+            }
         }
     }
     // inclusion on random ordered pairs
@@ -1392,6 +1532,9 @@ pub fn run(t: &mut Trace, rng: &mut Rng, thorough: bool) {
     let sl = if thorough { 100 } else { 12 };
     for _ in 0..sl {
         same_language_session(t, rng, 3);
+    }
+    for _ in 0..(if thorough { 6 } else { 2 }) {
+        huge_session(t, rng, thorough);
     }
     let ll = if thorough { 60 } else { 8 };
     for _ in 0..ll {
